@@ -24,7 +24,7 @@ ASSURANCE = {
     'C07': 'Fault = deadlines and early stream closes placed around the service time (racy clock), caller cancellation. Oracle: the abandoning caller gets TimeoutError; every other and every later request gets its reference answer; helper threads survive until exit; exit returns.',
     'C08': 'Invariant at every source pull and scheduler step: pulled - delivered <= the documented look-ahead bound, running invocations <= concurrency; nothing runs after close() returned; holds for every producer/consumer speed ratio the scheduler can produce.',
     'C09': 'Worker.run driven directly with 1-3 competing workers. Oracle: every call argument is a non-empty list of <= batch_size valid inputs (a single value when batch_size is 0); rejected / pre-failed elements never reach call; every accepted input is in exactly one batch and gets exactly one correct output; a request is served without more input arriving and (exact clock) within batch_wait_time of the first element of its batch; every worker forwards the end marker.',
-    'C10': 'Oracle: tee pulls nothing at construction; the source is pulled exactly once per element; each fork yields the same elements and ends the same way as the source (same failure at the same position); no fork waits forever for another (deadlock / no-progress verdict), for every relative speed and stop pattern of the forks and a failing source.',
+    'C10': 'Oracle: tee pulls nothing at construction; the source is pulled exactly once per element and (invariant at every scheduler step) never more than buffer_size+2 elements beyond the slowest fork; each fork yields the same elements and ends the same way as the source (same failure at the same position); no fork waits forever for another (deadlock / no-progress verdict), for every relative speed and stop pattern of the forks and a failing source.',
     'C11': 'Fault = which worker (leaf, index) fails to initialise, in which enter/exit cycle; workload histories incl. abandoned bulky streams. Oracle: enter raises that error and leaves no thread/process; exit returns within bounded virtual time with all library threads and simulated processes gone; the same object works again (backlog 0 on re-entry, reference answers). Every fail site of every generated tree is enumerated over the runs.',
     'C12': 'Fault = how the target ends: return, raise (classes incl. unpicklable / multi-arg), sys.exit(codes), kill at arbitrary points incl. mid-message. Oracle: result/exception/exitcode/join/done/wait report exactly that outcome and never hang.',
     'C13': 'Reference model of per-object reference counts over creation, copying, pickling to children, nesting, drop and GC in parent and (simulated) child processes, with connection faults. Oracle: hosted object alive iff the model says some proxy refers to it; destroyed exactly once after the last goes.',
